@@ -23,7 +23,27 @@ pub fn builtin() -> Vec<(&'static str, String)> {
         ("array-aliasing", "stel a = [\"x\", 1.5]; stel b = a; functie f() { b[0] = string(7); a }; f(); [a, b, f()]"),
         ("shadowed-heap-locals", "functie f(p) { stel a = [p]; { stel b = [a, \"s\"]; { stel c = [b, 2.5]; functie g() { 0 }; g(); c } } }; f(\"z\")"),
     ];
-    v.into_iter().map(|(n, s)| (n, s.to_string())).collect()
+    let mut out: Vec<(&'static str, String)> = v.into_iter().map(|(n, s)| (n, s.to_string())).collect();
+    // size- and depth-dependent shapes: thresholds in the collector or in root scanning (64/128/256
+    // managed objects, tens of frames, hundreds of pending operands, long arrays and strings)
+    out.push((
+        "deep-frames-with-heap-locals",
+        "functie d(n, keep) { stel l = [n, string(n)]; als n < 1 { antwoord [l]; }; stel r = d(n - 1, l); [l, r, keep] }; d(150, \"top\")".to_string(),
+    ));
+    out.push((
+        "many-live-objects",
+        "functie id(x) { x }; stel i = 0; stel keep = []; zolang i < 330 { i = i + 1; stel t = [string(i), float(i)]; id(t); keep = [keep, t]; }; functie tel(k) { lengte(k) }; [tel(keep), keep]".to_string(),
+    ));
+    let wide: Vec<String> = (0..130).map(|i| if i % 3 == 0 { format!("string({})", i) } else if i % 3 == 1 { format!("float({})", i) } else { format!("[{}]", i) }).collect();
+    out.push(("wide-array-of-fresh-values", format!("functie f() {{ 0 }}; stel w = [{}]; f(); f(); w", wide.join(", "))));
+    let pending: Vec<String> = (0..220).map(|i| format!("g({})", i)).collect();
+    out.push(("hundreds-of-pending-operands", format!("functie g(n) {{ string(n) }}; [{}]", pending.join(", "))));
+    let long: String = (0..300).map(|i| char::from(b'a' + (i % 26) as u8)).collect();
+    out.push((
+        "long-string-changed-in-place",
+        format!("functie f() {{ 1 }}; stel s = \"{}\"; stel i = 0; zolang i < 40 {{ s[i * 7] = \"é\"; f(); i = i + 1; }}; [s, s[0], s[299], lengte(s)]", long),
+    ));
+    out
 }
 
 /// builtin cases + every examples/*.nl of the repository (sorted by name)
